@@ -1,8 +1,17 @@
 """C07 - Identical data is stored once."""
-from specs import snapshot, loc
+from specs import snapshot, loc, misc
 
 LEVEL = 'proof'
-UNITS = [snapshot.worker_unit('C07'), snapshot.tail_unit('C07')]
+UNITS = [snapshot.worker_unit('C07'), snapshot.producer_unit('C07'), snapshot.tail_unit('C07'), loc.chunk_loc_unit('C07'), misc.chunkify_unit('C07')] + loc.parts_units('C07')[:1]
 BOUNDED = []
-TRUSTED = []
-ASSUMPTIONS = []
+TRUSTED = [
+    'vf symbolic executor (/verif/vf): encoding of the Python subset (DESIGN 2.2)',
+    'z3 5.1 (API + z3-new CLI), cvc5 1.0.3 (strings)',
+]
+ASSUMPTIONS = ['C10 determinism of the chunker; deterministic hashing', 'within one snapshot two workers may both see exists=False for one digest and both upload the same name with equivalent bytes: one object, two transfers (noted, not an obligation)', 'independent key families never alias (A-collision of the MAC)', 'backend interface as in C02']
+MANIFEST = {
+    'text': "Deductive proof that the storage name and the payload key of a chunk are functions of the shared family secrets and the content digest only, that the chunker is keyed by the family's chunker key, that a payload is transferred only when the existence check answered absent, and that each digest has one table index.",
+    'note': 'Trusted: vf engine, SMT solvers, crypto assumptions. The exact-set statement over histories follows from these contracts with C02/C08 (lemma stated in DESIGN 6/C07).',
+    'technique': 'contract-based deductive verification: sidecar contracts + loop invariants on the real functions, VCs by symbolic execution of the AST, discharged by z3/cvc5',
+    'design_ref': 'DESIGN.md 6/C07',
+}
